@@ -273,6 +273,9 @@ func (d *driver) finish(cl *call) {
 	if cl.op == "join" && cl.ch != nil {
 		d.chans[cl.addr] = cl.ch
 		d.allChans[cl.addr] = append(d.allChans[cl.addr], cl.ch)
+		d.w.knownMu.Lock()
+		d.w.known = append(d.w.known, cl.ch)
+		d.w.knownMu.Unlock()
 		if cl.err == nil {
 			// the occupant is in under the address the request went to
 			want := cl.addr
@@ -365,7 +368,9 @@ func (d *driver) barrier() bool {
 			// (nothing in it is a legitimate place to wait for ever; the selects of
 			// pending Join/Leave calls are, and are not looked at here) while the
 			// serve loop waits for it to release a response?
-			inHandler := strings.HasPrefix(p.Func, "muc.(*Client).Handle")
+			// (the handler may be further up the stack: an application callback
+			// it invoked that asks the package something and waits for a lock)
+			inHandler := strings.HasPrefix(p.Func, "muc.(*Client).Handle") || strings.Contains(p.Stack, "muc.(*Client).Handle")
 			// … or a request goroutine parked in its own hand-over (not in the
 			// session's wait for an answer): it has an answer in its hands, keeps
 			// the response open, and nobody is going to take it
